@@ -86,7 +86,11 @@ func (h *Handler) handleDiscover(p packet.DHCP4, options packet.DHCP4Options) (d
 	if !lease.IPOffer.IsValid() {
 		if err := h.allocIPOffer(lease, reqIP); err != nil {
 			Logger.Msg("discover all ips allocated, failing silently").Error(err).Write()
+			revoked := lease.State == StateAllocated
 			h.delete(lease)
+			if revoked {
+				h.saveConfig(h.filename) // an acknowledged binding was dropped: the lease file must not keep it
+			}
 			return nil
 		}
 	}
